@@ -201,10 +201,13 @@ def validate_once(module, cfg, trace_path, timeout=900, xmx="4g", raw=False):
     raise ToolError("TLC failed while validating " + trace_path)
 
 
-def validate_batch(module, cfg, trace_path, timeout=900, max_failures=25):
+def validate_batch(module, cfg, trace_path, timeout=900, max_failures=None):
     """Validate a batch of traces. On a rejection the offending trace is isolated and validation resumes
     with the traces after it, so every failing trace of the batch is found.
     Returns dict(traces, accepted, failures=[{index, lines, line_in_trace, unmatched, invariant, ...}], states)."""
+    if max_failures is None:
+        # every further failing trace of a batch costs one more TLC run; evaluations of seeded changes lower the bound
+        max_failures = int(os.environ.get("VERIF_MAX_FAILURES", "120"))
     traces = split_batch(trace_path)
     total = len(traces)
     failures = []
@@ -212,22 +215,32 @@ def validate_batch(module, cfg, trace_path, timeout=900, max_failures=25):
     start = 0
     kf = set()
     tmpdir = tempfile.mkdtemp(prefix="vb_", dir=WORK)
+    # The first run takes the whole batch (one TLC start when everything conforms).  After a rejection the runs take a
+    # window of traces behind the failing one -- small at first, growing again while windows are accepted -- so that a
+    # batch with many failing traces costs a JVM start and a short parse per failure, not a parse of the whole rest.
+    win = None
+    validated = 0
     try:
         while start < total and len(failures) < max_failures:
+            end = total if win is None else min(total, start + win)
             part = os.path.join(tmpdir, f"part_{start}.ndjson")
             with open(part, "w") as f:
-                for t in traces[start:]:
+                for t in traces[start:end]:
                     f.writelines(t[1])
             r = validate_once(module, cfg, part, timeout=timeout)
             states += r["states"]
             kf |= r.get("kf", set())
             if r["accepted"]:
-                break
+                validated += end - start
+                start = end
+                if win is not None:
+                    win = min(win * 4, 4096)
+                continue
             # locate the failing trace
             line = r["line"] or 1
             acc = 0
             k = start
-            for k in range(start, total):
+            for k in range(start, end):
                 n = len(traces[k][1])
                 if line <= acc + n:
                     break
@@ -236,10 +249,13 @@ def validate_batch(module, cfg, trace_path, timeout=900, max_failures=25):
                         invariant=r["invariant"], flags=r.get("flags"), laststate=r["laststate"],
                         expected=r.get("expected"))
             failures.append(fail)
+            validated += k - start + 1
             start = k + 1
+            win = 16
     finally:
         shutil.rmtree(tmpdir, ignore_errors=True)
-    return dict(traces=total, accepted=total - len(failures), failures=failures, states=states, kf=kf,
+    # traces behind the last one examined (the bound on failures was reached) are neither accepted nor rejected
+    return dict(traces=total, accepted=validated - len(failures), failures=failures, states=states, kf=kf, not_examined=total - validated,
                 all_lines=[t[1] for t in traces])
 
 
